@@ -1,4 +1,4 @@
-use super::evaluator_numeric::value_as_f64;
+use super::evaluator_numeric::{compare_int_float, value_as_f64};
 use super::evaluator_temporal_math::{compare_time_of_day, compare_time_with_offset};
 use super::evaluator_temporal_parse::parse_temporal_string;
 use super::{TemporalValue, Value};
@@ -26,6 +26,23 @@ fn compare_numbers_for_range<F>(left: &Value, right: &Value, cmp: &F) -> Value
 where
     F: Fn(Ordering) -> bool,
 {
+    // Integers are compared exactly, also against floats (no detour through f64).
+    match (left, right) {
+        (Value::Int(l), Value::Int(r)) => return Value::Bool(cmp(l.cmp(r))),
+        (Value::Int(l), Value::Float(r)) => {
+            return match compare_int_float(*l, *r) {
+                Some(ord) => Value::Bool(cmp(ord)),
+                None => Value::Bool(false),
+            };
+        }
+        (Value::Float(l), Value::Int(r)) => {
+            return match compare_int_float(*r, *l) {
+                Some(ord) => Value::Bool(cmp(ord.reverse())),
+                None => Value::Bool(false),
+            };
+        }
+        _ => {}
+    }
     let (l, r) = match (value_as_f64(left), value_as_f64(right)) {
         (Some(l), Some(r)) => (l, r),
         _ => return Value::Null,
@@ -140,8 +157,15 @@ pub(super) fn order_compare_non_null(left: &Value, right: &Value) -> Option<Orde
         (Value::Bool(l), Value::Bool(r)) => Some(l.cmp(r)),
         (Value::Int(l), Value::Int(r)) => Some(l.cmp(r)),
         (Value::Float(l), Value::Float(r)) => Some(compare_f64_with_nan(*l, *r)),
-        (Value::Int(l), Value::Float(r)) => Some(compare_f64_with_nan(*l as f64, *r)),
-        (Value::Float(l), Value::Int(r)) => Some(compare_f64_with_nan(*l, *r as f64)),
+        // NaN sorts after every number (as in compare_f64_with_nan)
+        (Value::Int(l), Value::Float(r)) => {
+            Some(compare_int_float(*l, *r).unwrap_or(Ordering::Less))
+        }
+        (Value::Float(l), Value::Int(r)) => Some(
+            compare_int_float(*r, *l)
+                .map(Ordering::reverse)
+                .unwrap_or(Ordering::Greater),
+        ),
         (Value::String(l), Value::String(r)) => Some(compare_strings_with_temporal(l, r)),
         _ => {
             let rank_cmp = value_order_rank(left).cmp(&value_order_rank(right));
